@@ -81,6 +81,16 @@ func RunInspections(layout Layout, runDir string, lineNormalization bool, useDSS
 	return inspectionMetadata, nil
 }
 
+// cleanArtifactPaths returns a copy of the passed artifact map, in which the
+// artifact paths are cleaned up. The passed map is not modified.
+func cleanArtifactPaths(artifacts map[string]HashObj) map[string]HashObj {
+	cleaned := make(map[string]HashObj, len(artifacts))
+	for k, v := range artifacts {
+		cleaned[path.Clean(k)] = v
+	}
+	return cleaned
+}
+
 // verifyMatchRule is a helper function to process artifact rules of
 // type MATCH. See VerifyArtifacts for more details.
 func verifyMatchRule(ruleData map[string]string,
@@ -114,18 +124,10 @@ func verifyMatchRule(ruleData map[string]string,
 	if ruleData["pattern"] != "" {
 		ruleData["pattern"] = path.Clean(ruleData["pattern"])
 	}
-	for k := range srcArtifacts {
-		if path.Clean(k) != k {
-			srcArtifacts[path.Clean(k)] = srcArtifacts[k]
-			delete(srcArtifacts, k)
-		}
-	}
-	for k := range dstArtifacts {
-		if path.Clean(k) != k {
-			dstArtifacts[path.Clean(k)] = dstArtifacts[k]
-			delete(dstArtifacts, k)
-		}
-	}
+	// The artifact maps belong to the links of the caller, hence the paths are
+	// cleaned up in copies
+	srcArtifacts = cleanArtifactPaths(srcArtifacts)
+	dstArtifacts = cleanArtifactPaths(dstArtifacts)
 
 	// Normalize optional source and destination prefixes, i.e. if
 	// there is a prefix, then add a trailing slash if not there yet
